@@ -11,7 +11,7 @@ def peTail (c : Cfg) (s1 : S) (e1 : Bool) : S × Option Phase :=
     if c.oneway then (s2, some .Oneway)
     else if s1.phase ≠ .UpFilter then (s2, some .UpFilter)
     else (s2, if e1 then some .End else none)
-  else if s1.up.isSome && s1.setupRetry then ({ s1 with setupRetry := false }, some .Retry)
+  else if s1.up.isSome && s1.setupRetry then ({ s1 with up := some none, setupRetry := false }, some .Retry)
   else (s1, if e1 || s1.procDone then some .End else none)
 
 /-- the state written by the direct-response branch: `releaseRetry` then `clearRetryState` -/
@@ -27,7 +27,7 @@ theorem processError_spec (c : Cfg) (s : S) :
         if c.oneway then (s, some .Oneway) else peTail c (onUpstreamReset c s) true
       else peTail c s false := by
   unfold processError Gen.ProxyError.processError peTail
-  simp only [peOps, Bool.not_true, Bool.false_eq_true, if_false, id, pe_direct_state]
+  simp only [peOps, Bool.not_true, Bool.false_eq_true, if_false, id, pe_direct_state, Gen.ProxyError.detachFresh, if_true]
   by_cases hc : s.cleaned = true
   · simp [hc]
   · simp only [hc, if_false]
